@@ -178,6 +178,18 @@ def check_dict_apis(ctx, tree, has_dot_keys):
       want = norm(tree) if keep else norm(prune_empty(tree, il))
       ctx.check(same(back, want), api + '.roundtrip',
                 lambda: dict(tree=repr(tree), keep=keep, sep=sep, is_leaf=lname, got=repr(back), want=repr(want)))
+      if keep and any(v is sentinel for v in flat.values()):
+        # empty_node is a struct.dataclass "to be compatible with JAX": a flat dict that went through a pytree map, a copy or a
+        # pickle round trip holds an equal, new marker object and still unflattens to the same tree
+        import copy
+        import pickle
+        import jax
+        for how, tf in (('tree_map', lambda v: jax.tree_util.tree_map(lambda x: x, v)), ('deepcopy', copy.deepcopy),
+                        ('pickle', lambda v: pickle.loads(pickle.dumps(v)))):
+          flat2 = {k: (tf(v) if v is sentinel else v) for k, v in flat.items()}
+          back2 = unflat_fn(flat2, sep=sep)
+          ctx.check(same(back2, want), api + '.roundtrip:empty_node_marker_copied',
+                    lambda: dict(tree=repr(tree), sep=sep, is_leaf=lname, how=how, got=repr(back2), want=repr(want)))
       # sep form == join of tuple form
       if sep is not None:
         flat_t = flat_fn(tree, keep_empty_nodes=keep, is_leaf=il, sep=None)
